@@ -98,6 +98,9 @@ VCs(p) ==
     [] p.k \in ListKinds ->
          {"init", "empty", "one", "many"}
          \cup (IF p.k \in {"sublist", "containerlist"} THEN {"xsi"} ELSE {})
+         \* items at the border of the item value space (for string items: text with non-XML white space - NBSP, EM SPACE,
+         \* NEL, LINE SEPARATOR - which is ONE item of an xsd:list: only #x20 #x9 #xA #xD separate items)
+         \cup (IF p.k \in {"attrlist", "textlist"} THEN {"bound"} ELSE {})
          \cup (IF CanBeNone(p) THEN {"absent", "stripped"} ELSE {})
     [] p.k = "subwithlist" -> {"init", "empty", "one", "many", "stripped"}
 
@@ -113,7 +116,7 @@ Val(p, vc) ==
                      ELSE IF p.k \in ObjKinds THEN Obj("a", FALSE) ELSE Sc("a")
     [] vc = "many" -> IF p.k = "subwithlist" THEN Holder(<<"a", "b">>) ELSE Lst(<<"a", "b">>)
     [] vc = "two" -> Sc("b")
-    [] vc = "bound" -> Sc("bd")
+    [] vc = "bound" -> IF IsListy(p) THEN Lst(<<"bd", "b">>) ELSE Sc("bd")
     [] vc = "full" -> Obj("f", FALSE)
     [] vc = "xsi" -> IF IsListy(p) THEN Lst(<<"a", "bX">>) ELSE Obj("a", TRUE)
 
